@@ -248,6 +248,7 @@ def finding_matches(f, sig, obj):
        what: [..]            reject kind is one of these
        tags_all: [..]        every tag is a feature of the program (lib/tags.py)
        tags_any: [..]        at least one tag is
+       tags_none: [..]       none of these tags is
        <key>_re: pattern     regex search in sig[<key>] (sql, src, exec_error, panic_msg, reason, ...)
        <key>: value|[values] equality / membership"""
     m = f.get("match", {})
@@ -256,6 +257,9 @@ def finding_matches(f, sig, obj):
     for k, want in m.items():
         if k == "tags_all":
             if not set(want) <= set(sig.get("tags", [])):
+                return False
+        elif k == "tags_none":
+            if set(want) & set(sig.get("tags", [])):
                 return False
         elif k == "tags_any":
             if not set(want) & set(sig.get("tags", [])):
